@@ -37,6 +37,11 @@ type c02NoUnqX struct {
 	F bool   `short:"f" long:"ff"`
 }
 
+type c02HexX struct {
+	X int  `short:"x" long:"nm" base:"16"`
+	F bool `short:"f" long:"ff"`
+}
+
 type c02Out struct {
 	errNil  bool
 	typed   bool
@@ -106,6 +111,11 @@ func c02Run(k int, opts Options, argv []string, mapKeys []string) c02Out {
 		p.AddGroup("Application Options", "", &d)
 		rest, err = p.ParseArgs(argv)
 		o.val, o.flag = d.X, d.F
+	case 8:
+		var d c02HexX
+		p.AddGroup("Application Options", "", &d)
+		rest, err = p.ParseArgs(argv)
+		o.ival, o.flag = d.X, d.F
 	}
 	o.rest = rest
 	o.errNil = err == nil
@@ -116,7 +126,7 @@ func c02Run(k int, opts Options, argv []string, mapKeys []string) c02Out {
 	return o
 }
 
-var c02Shorts = []string{"x", "é", "€", "3", "x", "x", "x", "x"}
+var c02Shorts = []string{"x", "é", "€", "3", "x", "x", "x", "x", "x"}
 
 // c02Admissible: the spelling denotes (option, V) under the documented grammar.
 func c02Admissible(v *V, sp int, kind int, opts Options, V string) bool {
@@ -128,7 +138,7 @@ func c02Admissible(v *V, sp int, kind int, opts Options, V string) bool {
 			return false
 		}
 		if refOptionSyntax(V) {
-			return kind == 4 && refNegNumber(V)
+			return (kind == 4 || kind == 8) && refNegNumber(V)
 		}
 		return true
 	}
